@@ -567,6 +567,12 @@ def refinement(run, F):
             else:
                 continue
         except bitprov.Refuse as e:
+            if 'out of range' in str(e):
+                # an in-range bit index addresses a unit the array does not own: that is a verdict, not an unknown idiom
+                run.ob('C20.e', 'BitArrayT<%d>::%s stays inside its own storage for every in-range index' % (cap, fn.m), False, where=fn.pat,
+                       detail=str(e), key='BitArrayT::%s addresses storage the array does not own' % fn.m)
+                decided.add((cap, fn.m, len(fn.params)))
+                continue
             raise AnalysisBroken('BitArrayT<%s>::%s is outside the bit-provenance fragment: %s' % (cap, fn.m, e))
         run.ob('C20.e', 'BitArrayT<%d>::%s' % (cap, what), bad is None, where=fn.pat, detail=bad,
                key='BitArrayT::%s%s does not refine the set-of-integers model' % (fn.m, '(i)' if fn.params and fn.m != 'operator&=' else '()'))
@@ -602,6 +608,9 @@ def run(run):
     run.floor('C20.c', 15)
     run.floor('C20.d', 20)
     run.floor('C20.e', 1500)
+    from gen import static_units
+    static_units.report(run, 'C20.f', static_units.capacity_unit('C20.f'))
+    run.floor('C20.f', 1)
     run.explanation = (
         'Sibling agreement of the get/set/clear index arithmetic after normalisation, a representation-invariant argument '
         'for the padding bits of the last storage unit (each write to the storage is classified; the invariant is established '
